@@ -65,6 +65,7 @@ type c15Case struct {
 func genC15(t *rapid.T) c15Case {
 	c := c15Case{}
 	c.Shape = gen.DrawShape(t, gen.ShapeOpts{})
+	c.Shape.HostZone = rapid.IntRange(0, 2).Draw(t, "hostZone") == 0
 	if rapid.IntRange(0, 4).Draw(t, "externals") == 0 {
 		c.Shape.Xform = 4 // output depends on external properties
 	}
@@ -163,7 +164,13 @@ func c15RunChild(schema string, in []byte) ([]run.Step, error) {
 	f.Write(b)
 	f.Close()
 	cmd := exec.Command(os.Args[0], "-test.run", "^TestC15Child$", "-test.count", "1")
-	cmd.Env = append(os.Environ(), "VERIF_C15_CHILD="+f.Name(), "VERIF_OUT=", "VERIF_REPLAY=")
+	// (the fresh process lives in another local time zone than this one, if the host has the zone database: the local
+	// zone of the host is not among the things the results may depend on)
+	tz := "Asia/Tokyo"
+	if os.Getenv("TZ") == tz {
+		tz = "America/St_Johns"
+	}
+	cmd.Env = append(os.Environ(), "VERIF_C15_CHILD="+f.Name(), "VERIF_OUT=", "VERIF_REPLAY=", "TZ="+tz)
 	out, err := cmd.Output()
 	if err != nil {
 		return nil, fmt.Errorf("child process failed: %v\n%s", err, out)
@@ -219,6 +226,9 @@ func checkC15(c c15Case) obs.Result {
 	classes := []string{"format=" + c.Shape.Format, fmt.Sprintf("xform=%d", c.Shape.Xform)}
 	if c.Sample > 0 {
 		classes = append(classes, "repo-sample")
+	}
+	if c.Sample == 0 && c.Shape.HostZone && c.Child {
+		classes = append(classes, "zoneless-datetime-calls+fresh-process-in-another-zone")
 	}
 	shared, err := run.NewSchema(schema)
 	if err != nil {
